@@ -110,6 +110,22 @@ theorem wrappers_refine_mirror_copies (cfg : Cfg α) (s : Sys α) (c : Nat) (k :
     (next cfg (next cfg s (.step c)) (.step c)).sec.val k = some v :=
   mirror_copies_value cfg s c k v hp hk
 
+/-- **mirror targets** (`writeToSecondary`): whatever the client list and wherever the primary sits in it
+— in particular after `setNewPrimaryClient` moved it away from position 0 at runtime — the mirror
+write is never sent to the store the call used as primary … -/
+theorem mirror_targets_exclude_primary (clients : List Nat) (primary : Nat) :
+    primary ∉ mirrorTargets clients primary := by
+  simp [mirrorTargets]
+
+/-- … it is sent to every other client, and to nothing else. -/
+theorem mirror_targets_exactly_others (clients : List Nat) (primary c : Nat) :
+    c ∈ mirrorTargets clients primary ↔ (c ∈ clients ∧ c ≠ primary) := by
+  simp [mirrorTargets]
+
+/-- two clients, primary switched to the second one: the mirror goes to the first (old) store only;
+"all clients but the first" would be the primary itself. -/
+example : mirrorTargets [0, 1] 1 = [0] ∧ mirrorTargets [0, 1] 0 = [1] ∧ ([0, 1] : List Nat).tail = [1] := by decide
+
 /-! ### memberlist
 
 Since dskit commit "fix: memberlist KV CAS on a missing key is not atomic" `mergeValueForKey` tests
